@@ -192,11 +192,18 @@ func (c JSONArrayCodec) Read(data []byte, ptr unsafe.Pointer, wt plenccore.WireT
 	}
 	offset := n
 
+	// The slice must hold exactly the encoded elements, whatever it held
+	// before (it is empty but not nil when we're behind a pointer).
 	a := *(*[]any)(ptr)
-	if a == nil {
+	if uint64(cap(a)) < count {
 		a = make([]any, count)
-		*(*[]any)(ptr) = a
+	} else {
+		a = a[:count]
+		for i := range a {
+			a[i] = nil
+		}
 	}
+	*(*[]any)(ptr) = a
 
 	for i := range a {
 		l, n := plenccore.ReadVarUint(data[offset:])
